@@ -59,6 +59,7 @@ type Obligation struct {
 	ctx      *Ctx
 	ModelVars []string // terms to get-value on sat
 	idxDefined bool    // emit `idx` as a macro instead of an axiomatised symbol
+	noQuant    bool    // probe variant without quantified hypotheses
 }
 
 type loopInfo struct {
@@ -99,6 +100,7 @@ type gen struct {
 	lastNextKey string
 	nilSeen  map[string][]*ssa.BasicBlock
 	volatile map[string]bool // refs of cells captured by spawned goroutines
+	materialised map[string]string // interior location → object it was materialised as
 	inheritNoPanic bool
 	dryWritten map[*ssa.BasicBlock]map[string]bool
 	resultVals []Val // bound while elaborating ensures
@@ -108,6 +110,7 @@ type inlineRet struct {
 	reach string
 	vals  []Val
 	st    State
+	blk   *ssa.BasicBlock
 }
 
 // ------------------------------------------------------------ state helpers
